@@ -434,11 +434,14 @@ class PA:
         self.ext = tuple(ext) if ext is not None else (None,) * data.ndim
         # [static upper bound of the (non-negative) integer entries where known, entries were assigned from sizes (scalar reads
         # give an SInt again)] — shared between an array and its views
-        self._m = meta if meta is not None else [ecap, False]
+        self._m = meta if meta is not None else [ecap, False, None]
         self.lit = False              # wraps a concrete numpy array handed in by the caller (connectivity): usable as a plain index
 
     ecap = property(lambda self: self._m[0], lambda self, v: self._m.__setitem__(0, v))
     sizes = property(lambda self: self._m[1], lambda self, v: self._m.__setitem__(1, v))
+    # numpy integer type the array was allocated with, when it is not the default int: stores wrap modulo its width as numpy's
+    # array assignment does
+    itype = property(lambda self: self._m[2], lambda self, v: self._m.__setitem__(2, v))
 
     def _view(self, data, ext=None):
         r = PA(data, self.kind, ext, meta=self._m)
@@ -471,7 +474,28 @@ class PA:
 
     @property
     def dtype(self):
+        if self.kind == 'i' and self.itype is not None:
+            return self.itype
         return onp.dtype({'b': bool, 'i': int, 'f': float}[self.kind])
+
+    def _stored(self):
+        """after a store: entries of an array of a narrow integer type wrap like numpy's casting assignment"""
+        if self.kind != 'i' or self.itype is None:
+            return
+        info = onp.iinfo(self.itype)
+        lo, span = int(info.min), int(info.max) - int(info.min) + 1
+        flat = self.data.reshape(-1) if self.data.flags['C_CONTIGUOUS'] else None
+        it = onp.ndindex(*self.data.shape)
+        for I in it:
+            v = self.data[I]
+            if isinstance(v, OH):
+                if all(lo <= k < lo + span for k in v.d):
+                    continue
+                self.data[I] = _oh([((k - lo) % span + lo, c) for k, c in v.d.items()])
+            elif not isz(v):
+                w = (int(v) - lo) % span + lo
+                if w != v:
+                    self.data[I] = w
 
     def __len__(self):
         if self.ext[0] is not None:
@@ -482,7 +506,20 @@ class PA:
         if self.ext[0] is None:
             return iter([self[i] for i in range(self.data.shape[0])])
         if self.ndim != 1:
-            raise Unsupported('iteration over a %d-d array with a symbolic number of rows' % self.ndim)
+            if any(e is not None for e in self.ext[1:]):
+                raise Unsupported('iteration over an array with symbolic extents along trailing axes')
+
+            def rows():
+                # the loop runs `length` times: the exploration forks on "one more row"
+                L = self.length()
+                for p in range(self.data.shape[0]):
+                    c = i_lt(p, L)
+                    if isz(c):
+                        c = bool(px.SymBool(c))
+                    if not c:
+                        return
+                    yield self._view(self.data[p], (None,) * (self.ndim - 1))
+            return rows()
 
         def gen():
             # the loop runs `length` times: the exploration forks on "one more entry"
@@ -506,6 +543,7 @@ class PA:
     def copy(self):
         r = PA(self.data.copy(), self.kind, self.ext, self.ecap)
         r.sizes = self.sizes
+        r.itype = self.itype
         return r
 
     def to_numpy(self):
@@ -674,13 +712,16 @@ class PA:
                 if self.ndim != 1:
                     raise Unsupported('index-array assignment on a %d-d array' % self.ndim)
                 _scatter(self.data, key, value, self, self.length())
+                self._stored()
                 return
             if key.kind == 'b':
                 r = _masked_set(self, key, value)
                 self.data[...] = r.data
+                self._stored()
                 return
         if isinstance(key, slice) and self.ndim == 1 and (isinstance(key.start, SInt) or isinstance(key.stop, SInt) or not self.dense):
             _slice_assign(self, key, value)
+            self._stored()
             return
         if isinstance(key, tuple):
             pas = [k for k in key if isinstance(k, PA)]
@@ -693,8 +734,10 @@ class PA:
                         raise Unsupported('index-array assignment with key %r' % (key,))
                     view = self.data[(slice(None),) + tuple(int(k) for k in rest)]     # numpy view: writes go through
                     _scatter(view, pas[0], value, self)
+                    self._stored()
                     return
                 _masked_axis_set(self, key, ax, value)
+                self._stored()
                 return
             if pas:
                 raise Unsupported('assignment with more than one symbolic index array')
@@ -714,6 +757,7 @@ class PA:
             elif self.kind == 'i' and isinstance(value, (int, onp.integer)) and self.ecap is not None:
                 self.ecap = max(self.ecap, int(value)) if value >= 0 else None
             self.data[key] = value
+        self._stored()
 
 
 def _norm_key(key):
@@ -1270,11 +1314,18 @@ class ONP:
     def full(self, shape, fill_value, dtype=None):
         shape = _shape_tuple(shape)
         kind = _kind_of_dtype(dtype if dtype is not None else type(fill_value))
+        itype = None
+        if kind == 'i' and dtype is not None and not (isinstance(dtype, type) and issubclass(dtype, int)) and onp.dtype(dtype) != onp.dtype(int):
+            itype = onp.dtype(dtype)
         if any(isinstance(s, SInt) for s in shape):
             if len(shape) != 1:
                 raise Unsupported('full() with a symbolic extent in a %d-d shape' % len(shape))
-            return _new_1d(shape[0], kind, lambda i: fill_value, None)
-        return PA(_objarr(tuple(int(s) for s in shape), fill_value), kind, None, fill_value if (kind == 'i' and fill_value >= 0) else None)
+            r = _new_1d(shape[0], kind, lambda i: fill_value, fill_value if (kind == 'i' and fill_value >= 0) else None)
+        else:
+            r = PA(_objarr(tuple(int(s) for s in shape), fill_value), kind, None, fill_value if (kind == 'i' and fill_value >= 0) else None)
+        r.itype = itype
+        r._stored()
+        return r
 
     def zeros(self, shape, dtype=float):
         kind = _kind_of_dtype(dtype)
@@ -1975,7 +2026,7 @@ def to_numpy(x):
         return int(x.z)
     if isinstance(x, PA):
         if x.ndim == 1:
-            return onp.array(list(x.data[:int(x.length())]), dtype=x.dtype)
+            return onp.array([int(v) if x.kind == 'i' else v for v in x.data[:int(x.length())]], dtype=x.dtype)
         x._need_dense('to_numpy')
         return onp.array(x.data.tolist(), dtype=x.dtype)
     return x
@@ -2176,6 +2227,99 @@ def _register_coo():
 
 
 _register_coo()
+
+
+# ------------------------------------------------------------------------------------------ a mesh beyond 256 unknowns (concrete layouts)
+LARGE = dict(Nx=12, Ny=11, dim=2)          # 132 nodes (node ids < 256), 2 fields: 264 dofs (unknown ids up to 263)
+LARGE_LAYOUTS = [('no BC', []), ('left:x', [('left', 0)]), ('bottom:x,y + left:y', [('bottom', 0), ('bottom', 1), ('left', 1)])]
+
+
+def choose(ex, name, n):
+    """an input that selects one of n configurations: a symbolic integer, forked into its values"""
+    k = ex.int(name)
+    ex.assume(k >= 0)
+    ex.assume(k <= n - 1)
+    for i in range(n - 1):
+        if bool(k == i):
+            return i
+    return n - 1
+
+
+def make_large_mesh_harness():
+    """the REAL DofManager (real numpy: no symbolic value anywhere, the BC layout is a forked configuration choice) on a structured
+    mesh with more than 256 unknowns and fewer than 256 nodes; the goals are the exact statements of O1 / O5 evaluated by plain
+    loops over conns — in reach of integer-width effects that the <= 12-dof symbolic meshes cannot show"""
+    def fn(ex):
+        import jax.numpy as jnp
+        from optimism import FunctionSpace, Mesh
+        lay = LARGE_LAYOUTS[choose(ex, 'layout', len(LARGE_LAYOUTS))]
+        mesh = Mesh.construct_structured_mesh(LARGE['Nx'], LARGE['Ny'], [0.0, 1.0], [0.0, 1.0])
+        X = onp.asarray(mesh.coords)
+        nodeSets = {'left': jnp.flatnonzero(X[:, 0] < 1e-8), 'bottom': jnp.flatnonzero(X[:, 1] < 1e-8)}
+        mesh = Mesh.mesh_with_nodesets(mesh, nodeSets)
+        dim = LARGE['dim']
+        try:
+            dm = FunctionSpace.DofManager(types.SimpleNamespace(mesh=mesh), dim, [FunctionSpace.EssentialBC(nodeSet=s_, component=c) for s_, c in lay[1]])
+        except (ValueError, IndexError, TypeError, OverflowError) as e:
+            ex.goal(DEFINED, Holds(False), info='%s: %s (layout %s)' % (type(e).__name__, e, lay[0]))
+            return
+        conns = onp.asarray(mesh.conns)
+        nN, nEl, npe = X.shape[0], conns.shape[0], conns.shape[1]
+        nd, nD = nN * dim, npe * dim
+        bc = [False] * nd
+        for s_, c in lay[1]:
+            for n in onp.asarray(nodeSets[s_]):
+                bc[int(n) * dim + c] = True
+        free = [not b for b in bc]
+        unk, r = [], 0
+        for d in range(nd):
+            unk.append(r if free[d] else -1)
+            r += free[d]
+        nfree = r
+        info = 'layout %s: %d nodes, %d dofs, %d unknowns, %d elements' % (lay[0], nN, nd, nfree, nEl)
+        G = lambda name, conds: ex.goal(name, Holds(list(conds)), info=info)
+        uI, bI, d2u = [int(v) for v in onp.asarray(dm.unknownIndices)], [int(v) for v in onp.asarray(dm.bcIndices)], [int(v) for v in onp.asarray(dm.dofToUnknown)]
+        G('large_mesh_unknown_and_bc_indices_partition_the_dofs_in_order', [uI == [d for d in range(nd) if free[d]], bI == [d for d in range(nd) if bc[d]], d2u == unk,
+                                                                          int(dm.get_unknown_size()) == nfree, int(dm.get_bc_size()) == nd - nfree])
+        # COO maps against the stream of unknown x unknown entries of the element blocks (C order), by plain loops
+        straight_r, straight_c, M = [], [], onp.zeros((nEl, nD, nD), dtype=bool)
+        for e in range(nEl):
+            dofs = [int(conns[e][i // dim]) * dim + i % dim for i in range(nD)]
+            for i in range(nD):
+                for j in range(nD):
+                    if free[dofs[i]] and free[dofs[j]]:
+                        M[e, i, j] = True
+                        straight_r.append(unk[dofs[i]])
+                        straight_c.append(unk[dofs[j]])
+        rows, cols = [int(v) for v in onp.asarray(dm.HessRowCoords)], [int(v) for v in onp.asarray(dm.HessColCoords)]
+        mask = onp.asarray(dm.hessian_bc_mask)
+        G('large_mesh_hessian_bc_mask_marks_the_unknown_by_unknown_entries', [mask.shape == M.shape and bool((mask == M).all())])
+        G('large_mesh_coo_lengths_equal_the_number_of_masked_entries', [len(rows) == len(straight_r), len(cols) == len(straight_r)])
+        G('large_mesh_coo_coordinates_are_unknown_ids', [all(0 <= v < nfree for v in rows), all(0 <= v < nfree for v in cols)])
+        G('large_mesh_coo_pair_t_is_the_pair_of_unknown_ids_of_masked_entry_t_up_to_one_global_transposition',
+          [(rows == straight_r and cols == straight_c) or (rows == straight_c and cols == straight_r)])
+    return fn
+
+
+GOALS_LARGE = ['large_mesh_unknown_and_bc_indices_partition_the_dofs_in_order', 'large_mesh_hessian_bc_mask_marks_the_unknown_by_unknown_entries',
+               'large_mesh_coo_lengths_equal_the_number_of_masked_entries', 'large_mesh_coo_coordinates_are_unknown_ids',
+               'large_mesh_coo_pair_t_is_the_pair_of_unknown_ids_of_masked_entry_t_up_to_one_global_transposition']
+
+
+@obligation(P, 'O5.coo_maps_beyond_256_unknowns', cap=300)
+def o5_large(h):
+    """12 x 11 nodes, 2 fields (132 nodes, 264 dofs): index arrays and COO maps of the REAL DofManager are exactly the partition /
+    the unknown-by-unknown stream of every element, for three concrete BC layouts (none, left:x, bottom:x,y + left:y). No symbolic
+    value is involved (real numpy throughout); the obligation exists because stored unknown ids exceed 255 here while node ids do
+    not — integer-width effects are out of reach of the <= 12-dof symbolic meshes."""
+    from optimism import FunctionSpace
+    D = FunctionSpace.DofManager
+    h.encoded(D.__init__, D._make_hessian_coordinates, D._make_hessian_bc_mask, D.get_bc_size, D.get_unknown_size)
+    h.bounds('structured mesh %d x %d nodes, %d fields; BC layouts (a forked configuration input): %s' % (LARGE['Nx'], LARGE['Ny'], LARGE['dim'], [l[0] for l in LARGE_LAYOUTS]))
+    h.assume_note('ground obligation: the real DofManager runs on real numpy for each listed layout and the goals are evaluated by plain loops over conns; the symbolic-mask '
+                  'obligations (all masks, <= 12 dofs) carry the quantified claim; in the padded-array model integer arrays allocated with a narrow numpy type wrap on store as numpy does')
+    h.outside('other layouts / meshes of this size')
+    px.run_px(h, 'mesh12x11', make_large_mesh_harness(), cap=30, order=('core',), expect_goals=GOALS_LARGE)
 
 
 HISTORIES = [('tri2_f1', 'tri2b_f1'), ('tri2b_f1', 'tri2_f1'), ('tri2_f2', 'tri2b_f2')]
